@@ -95,7 +95,7 @@ def run(ctx):
 
 def replay(ctx, rep):
     m = rep["replay"]
-    got = sim_replay.run(m["fn"], [[tuple(o) for o in sc] for sc in m["script"]], m["period"], m["phase"], variant=m["variant"], perm_seed=m["perm_seed"])
+    got = sim_replay.run(m["fn"], [[tuple(o) for o in sc] for sc in m["script"]], m["period"], m["phase"], variant=m["variant"], perm_seed=m["perm_seed"], unit=m.get("time_unit", "fs"))
     print("expected:", m["expected"])
     print("actual:  ", [list(o) for o in got])
     if [list(o) for o in got] != m["expected"]:
